@@ -63,10 +63,10 @@ func (b bits) each(f func(int)) {
 // depSummary of a function: which inputs flow to which outputs.
 // inputs/outputs are indexed by parameter position (receiver first).
 type depSummary struct {
-	nparams    int
-	toResult   []bool   // param j -> any result
-	toPointee  [][]bool // param j -> pointee of param k
-	allToAll   bool
+	nparams     int
+	toResult    []bool   // param j -> any result
+	toPointee   [][]bool // param j -> pointee of param k
+	allToAll    bool
 	resultFresh bool
 }
 
@@ -86,17 +86,17 @@ func (p *Program) Dep() *depEngine {
 
 // depFn is the solved dependence problem of one function.
 type depFn struct {
-	f       *ssa.Function
-	labels  []string
-	labelIx map[string]int
-	dep     map[ssa.Value]*bits
-	pts     map[ssa.Value]*bits
-	objName []string
-	objT    []*bits // taint of object contents
-	objP    []*bits // objects pointed to from inside object
+	f        *ssa.Function
+	labels   []string
+	labelIx  map[string]int
+	dep      map[ssa.Value]*bits
+	pts      map[ssa.Value]*bits
+	objName  []string
+	objT     []*bits // taint of object contents
+	objP     []*bits // objects pointed to from inside object
 	paramObj []int
-	fresh   map[ssa.Value]int
-	eng     *depEngine
+	fresh    map[ssa.Value]int
+	eng      *depEngine
 }
 
 func (d *depFn) label(s string) int {
@@ -611,7 +611,7 @@ func (d *depFn) hasLabel(b bits, l string) bool {
 func (p *Program) callSites(f *ssa.Function, names ...string) []ssa.CallInstruction {
 	set := map[string]bool{}
 	for _, n := range names {
-		set[n] = true
+		set[normName(n)] = true
 	}
 	var out []ssa.CallInstruction
 	for _, b := range f.Blocks {
@@ -621,14 +621,14 @@ func (p *Program) callSites(f *ssa.Function, names ...string) []ssa.CallInstruct
 				continue
 			}
 			n := p.staticCalleeName(ci.Common())
-			if set[n] {
+			if set[normName(n)] {
 				out = append(out, ci)
 				continue
 			}
 			if ci.Common().StaticCallee() == nil {
 				for _, cal := range p.dynamicCallees(f, ci) {
 					cn := short(cal.String())
-					if set[cn] {
+					if set[normName(cn)] {
 						out = append(out, ci)
 						break
 					}
